@@ -17,6 +17,7 @@ fn main() {
     util::install_panic_hook();
     let mut ctx = Ctx::new(prop, tier, seed, driver, load_known(known));
     match prop.as_str() {
+        "C11" => props::c11::run(&mut ctx),
         "C12" => props::c12::run(&mut ctx),
         "C09" => props::c09::run(&mut ctx),
         "C04" => props::c04::run(&mut ctx),
